@@ -137,6 +137,11 @@ def _ood_query(case):
     st = sp['spike_templates']
     names = ['params.py', 'spike_times.npy', 'spike_templates.npy', 'spike_clusters.npy', 'channel_positions.npy',
              'templates.npy', 'amplitudes.npy', 'channel_map.npy'] + sorted(sp.get('extra_npy') or {})
+    if sp.get('alf'):
+        # ALF-named source: no spike_templates.npy / spike_clusters.npy under their KS names (the loader writes
+        # spike_clusters.npy itself when the dataset has no cluster file)
+        names = ['params.py'] + sorted(D.ALF_NAMES[k] for k in D.ALF_NAMES if sp.get(k) is not None) + \
+            ([] if sp.get('spike_clusters') is not None else ['spike_clusters.npy']) + sorted(sp.get('extra_npy') or {})
     return dict(op='export', rate=DC.frac(sp['sample_rate']), n_amplitudes=len(st), samples=sp['spike_samples'],
                 sc=sp.get('spike_clusters') or st, st=st, n_templates=len(sp['templates']), channel_map=sp['channel_map'],
                 channel_probes=sp.get('channel_probes') or [0] * sp['n_channels'],
@@ -299,6 +304,12 @@ def judge(case, impl_res, ans):
     for name, rows in mod['table']:
         if have.get(name) != rows:
             return 'CORR: table expects %s with %d rows, output has %s' % (name, rows, have.get(name))
+    if not case.get('probes') and not res[-1]['ordered']:
+        # a SINGLE dataset whose probe labels are not non-decreasing along the channel map: the reloaded channel map holds
+        # NEGATIVE raw indices (C14 model of make_channel_objects). Not accepted silently: reported under a narrow class
+        # (open finding) after every other clause was judged
+        return ('SPEC: channel map of the reloaded model %s holds negative raw indices: probe labels %s of the source are not in '
+                'channel-map order %s (single dataset)' % (ok['fresh']['channel_mapping'], sm['channel_probes'], sm['channel_mapping']))
     return None
 
 
@@ -333,6 +344,13 @@ def tally(rep, case, impl_res, ans):
     rep.count('label:%s' % bool(case.get('label')))
     if not case.get('probes'):
         s = case['spec']
+        r_ = ((ans.get('ok') or {}).get('res') or [{}])[-1]
+        if 'ordered' in r_ and len(set(s.get('channel_probes') or [])) > 1:
+            rep.count('reloaded channel map of a single dataset with several probes: ' + (
+                'labels in channel-map order, judged = per-probe re-expression' if r_['ordered'] else
+                'labels NOT in channel-map order -> negative raw index, reported as open finding (not accepted)'))
+        if s.get('amplitudes') is None:
+            rep.count('no amplitudes.npy')
         rep.count('curated:%s' % (s.get('spike_clusters') is not None))
         rep.count('raw:%s' % bool(s.get('raw')))
         rep.count('features:%s' % ('subset of the spikes' if s.get('pc_feature_spike_ids') is not None else s.get('pc_features') is not None))
@@ -340,8 +358,16 @@ def tally(rep, case, impl_res, ans):
 
 
 def classify(case, impl_res, ans, why):
-    return dict(kind=why.split(':')[0], what=why.split(':')[1].strip()[:40], merged=bool(case.get('probes')),
-                label=bool(case.get('label')), raised=impl_res.get('raised'), where=impl_res.get('where'))
+    if why.startswith('SPEC: channel map of the reloaded model') and 'not in channel-map order' in why:
+        return dict(kind='SPEC', site='make_channel_objects', probe_labels='not in channel-map order',
+                    observed='negative raw index', merged=False)
+    cls = dict(kind=why.split(':')[0], what=why.split(':')[1].strip()[:40], merged=bool(case.get('probes')),
+               label=bool(case.get('label')), raised=impl_res.get('raised'), where=impl_res.get('where'))
+    if case.get('spec') and case['spec'].get('amplitudes') is None:
+        # a dataset WITHOUT amplitudes.npy (optional for the loader): narrow class for the open finding
+        cls.update(no_amplitudes=True, where_file=(impl_res.get('where') or '').split(':')[0])
+        del cls['where']
+    return cls
 
 
 def _n_clusters(spec):
@@ -410,6 +436,16 @@ def gen(tier, rng):
             A.subset_features(rng, spec)
         # labels incl. ones that occur inside ALF file names or look like extensions
         label = ['', 'probe00', '', 'a', 'raw', '', 'amps', 'npy', 'spikes', 'x.y', 'clusters'][i % 11]
+        if i == 57:
+            # no amplitudes.npy (optional for the loader): spikes.amps / templates.amps / clusters.amps have no defined value
+            spec['amplitudes'] = None
+        if i == 76:
+            # OUTSIDE the quantifier (tallied, never an alarm): a source that is ALREADY ALF-named (spikes.clusters.npy ...);
+            # convert() documents "from KS/phy format", its rename table is keyed by the KS names
+            spec['alf'] = True
+            spec.pop('extra_npy', None)
+            yield dict(p=PID, spec=spec, factor=1, label='', rs=i, ood='ALF-named source')
+            continue
         if i in (33, 211):
             # OUTSIDE the quantifier (tallied, never an alarm): a source that already holds an ALF cluster table,
             # a label with a path separator
